@@ -93,7 +93,8 @@ def loop_kinds(prog, func):
         elif hname and hname.endswith('::pop'):
             pushes = [n for b, n, t in calls if n and (n.endswith('::push') or n.endswith('::extend') or n.endswith('::insert') or n.endswith('extend_from_slice'))
                       and t['args'] and t['args'][0]['k'] in ('copy', 'move') and _same_recv(body, ht, t)]
-            info.update(kind='while-pop', ok=not pushes, why='`while let Some(_) = v.pop()`; pushes to v in body: %d' % len(pushes))
+            info.update(kind='while-pop' if not pushes else 'while-pop-push', ok=not pushes,
+                        why='`while let Some(_) = v.pop()`; pushes to v in body: %d' % len(pushes))
         elif yields:
             # coroutine loop: every cycle must pass a yield_
             ok = every_cycle_passes(body, blocks, head, set(yields))
